@@ -558,6 +558,54 @@ func (f *file) withTimeoutUnguarded(fnName string) (int64, bool) {
 	return 1, true
 }
 
+// sslDialBounded inspects connection.ReConnect (with the fallback reading a new helper is seen inlined): an ssl
+// endpoint must be dialled so that the dial timeout covers the TLS handshake too — through
+// `tls.DialWithDialer(d, …)` where d is a `net.Dialer` literal carrying a `Timeout`, or, when the handshake is
+// run by hand (`tls.Client(…)` / `.Handshake()`), with a deadline set on the connection before it
+// (`SetDeadline` / `SetReadDeadline`) or a context (`HandshakeContext` / `DialContext`). 1 = bounded.
+func (f *file) sslDialBounded(fnName string) (int64, bool) {
+	fd := f.funcDecl(fnName)
+	if fd == nil || fd.Body == nil {
+		return 0, false
+	}
+	defs := f.localDefs(fd)
+	viaDialer, byHand, deadline := false, false, false
+	ast.Inspect(fd, func(n ast.Node) bool {
+		call, ok := n.(*ast.CallExpr)
+		if !ok {
+			return true
+		}
+		fun := exprStr(f.fset, call.Fun)
+		switch {
+		case fun == "tls.DialWithDialer" && len(call.Args) > 0:
+			d := exprStr(f.fset, call.Args[0])
+			if v, ok := defs[d]; ok {
+				d = v
+			}
+			if strings.Contains(d, "Dialer{") && strings.Contains(d, "Timeout:") {
+				viaDialer = true
+			}
+		case fun == "tls.Client" || strings.HasSuffix(fun, ".Handshake"):
+			byHand = true
+		case strings.HasSuffix(fun, ".SetDeadline") || strings.HasSuffix(fun, ".SetReadDeadline") ||
+			strings.HasSuffix(fun, ".HandshakeContext") || strings.HasSuffix(fun, ".DialContext"):
+			deadline = true
+		}
+		return true
+	})
+	if !viaDialer && !byHand && !deadline {
+		anchorLost("%s: %s: no TLS dial found (tls.DialWithDialer / tls.Client)", f.path, fnName)
+		return 0, false
+	}
+	if byHand && !deadline {
+		return 0, true
+	}
+	if viaDialer || deadline {
+		return 1, true
+	}
+	return 0, true
+}
+
 func c08AppendUnique(l []string, names ...string) []string {
 	for _, n := range names {
 		dup := false
@@ -621,6 +669,9 @@ func init() {
 		tc := parse("tars/transport/tarsclient.go")
 		v, ok = tc.cmpLit("NewTarsClient", "config.QueueLen", token.LEQ)
 		add("callQueueLenFallbackBound", v, ok)
+		// the dial timeout covers the TLS handshake of ssl endpoints
+		v, ok = tc.sslDialBounded("connection.ReConnect")
+		add("callSslDialBounded", v, ok)
 		// lock discipline of the transport client: nobody leaves with connLock held
 		for _, fn := range [][2]string{{"Close", "connection.close"}, {"ReConnect", "connection.ReConnect"}, {"Lost", "connection.lost"}} {
 			v, ok = tc.lockReleased(fn[1], "c.connLock")
